@@ -299,12 +299,71 @@ def extract_vmem():
     forgotten = bool(nm and 'ManuallyDrop' in nm.group(1))
     return calls, (drops_first, halves, forgotten), problems
 
+def rust_expr_to_coq(e, names):
+    """tiny recursive-descent translation of an integer expression: identifiers in `names`, literals, + - * /, parentheses,
+    method call .div_ceil(x); raises SyntaxError on anything else"""
+    toks = re.findall(r'\d+|[A-Za-z_]\w*|\.|[-+*/()]', e)
+    if ''.join(toks) != re.sub(r'\s+', '', e): raise SyntaxError(f'unrecognised tokens in `{e}`')
+    pos = [0]
+    def peek(): return toks[pos[0]] if pos[0] < len(toks) else None
+    def take():
+        t = peek(); pos[0] += 1; return t
+    def atom():
+        t = take()
+        if t is None: raise SyntaxError('unexpected end')
+        if t == '(':
+            v = expr()
+            if take() != ')': raise SyntaxError('missing )')
+        elif t.isdigit(): v = t
+        elif t in names: v = names[t]
+        else: raise SyntaxError(f'unknown identifier `{t}`')
+        while peek() == '.':
+            take(); m = take()
+            if m != 'div_ceil' or take() != '(': raise SyntaxError(f'unsupported method `{m}`')
+            a = expr()
+            if take() != ')': raise SyntaxError('missing )')
+            v = f'(div_ceil {v} {a})'
+        return v
+    def term():
+        v = atom()
+        while peek() in ('*', '/'):
+            o = take(); w = atom(); v = f'({v} {o} {w})'
+        return v
+    def expr():
+        v = term()
+        while peek() in ('+', '-'):
+            o = take(); w = term(); v = f'({v} {o} {w})'
+        return v
+    v = expr()
+    if peek() is not None: raise SyntaxError(f'trailing tokens in `{e}`')
+    return v
+
+def extract_page_round(problems):
+    """body of vmem_helper::get_page_size_mul -> Coq function of (page, min)"""
+    try:
+        src = strip_comments(open(os.path.join(REPO, 'src', 'ring_buffer/storage/heap/vmem_helper.rs')).read())
+        m = re.search(r'pub fn get_page_size_mul\(min_size: usize\) -> usize \{(.*?)\n\}', src, re.S)
+        if not m: raise SyntaxError('get_page_size_mul not found')
+        stmts = [x.strip() for x in m.group(1).strip().split(';') if x.strip()]
+        names = {'min_size': 'm'}
+        for st in stmts[:-1]:
+            lm = re.fullmatch(r'let (\w+) = page_size\(\)', st)
+            if not lm: raise SyntaxError(f'unrecognised statement `{st}`')
+            names[lm.group(1)] = 'page'
+        return rust_expr_to_coq(stmts[-1], names)
+    except (SyntaxError, OSError) as e:
+        problems.append(f'page rounding: {e}')
+        return '0'
+
 def write_vmem(calls, rel, problems):
+    page_round = extract_page_round(problems)
     lines = ['(* GENERATED by tools/extract_facts.py from /repo/src on every run - do not edit *)',
              'From Coq Require Import List.', 'Import ListNotations.', 'Require Import MRB.Model.Vmem.', '',
              'Definition calls : list vcall := [' + '; '.join(calls) + '].']
     rel = rel or (False, 0, False)
     lines.append(f'Definition release : vrelease := mkVR {b(rel[0])} {rel[1]} {b(rel[2])}.')
+    lines.append('(* vmem_helper::get_page_size_mul, translated *)')
+    lines.append(f'Definition page_round (page m : nat) : nat := {page_round}.')
     lines.append(f'Definition extractor_clean : bool := {b(not problems)}.')
     for p in problems: lines.append(f'(* PROBLEM: {p} *)')
     emit('VmemCalls.v', '\n'.join(lines) + '\n')
